@@ -532,15 +532,15 @@ Lemma fresh_handles_spec : forall n s, exists s' vs new,
   fresh_handles s n = inl (s', vs) /\ active s' = active s ++ new /\ map snd new = vs /\
   length new = n /\ next_h s' = next_h s + n /\ pending s' = pending s /\ last_new s' = last_new s /\
   (H0 s -> H0 s') /\ NoDup vs /\ (forall v, In v vs -> ~ In v (ids s)) /\
-  (forall v, In v vs -> v < length (active s) + n).
+  (forall v, In v vs -> v < length (active s) + n) /\ (1 <= n -> In 0 (ids s) \/ In 0 vs).
 Proof.
   induction n as [|n IH]; intros s; simpl.
   - exists s, [], []. rewrite app_nil_r, Nat.add_0_r.
     split; [reflexivity|]. split; [reflexivity|]. split; [reflexivity|]. split; [reflexivity|].
     split; [reflexivity|]. split; [reflexivity|]. split; [reflexivity|]. split; [auto|].
-    split; [constructor|]. split; intros v [].
-  - destruct (new_id_spec (ids s)) as [v [En [Hn [_ Hle]]]]. rewrite En.
-    destruct (IH (add_handle s v)) as [s' [vs [new [E [Ha [Hv [Hl [Hnh [Hp [Hln [HH [Hnd [Hdis Hb]]]]]]]]]]]]].
+    split; [constructor|]. split; [intros v []|]. split; [intros v [] | lia].
+  - destruct (new_id_spec (ids s)) as [v [En [Hn [Hbelow Hle]]]]. rewrite En.
+    destruct (IH (add_handle s v)) as [s' [vs [new [E [Ha [Hv [Hl [Hnh [Hp [Hln [HH [Hnd [Hdis [Hb _]]]]]]]]]]]]]].
     rewrite E. exists s', (v :: vs), ((next_h s, v) :: new).
     unfold ids in *. simpl in *. rewrite map_app in Hdis. simpl in Hdis.
     rewrite app_length in Hb. simpl in Hb. rewrite map_length in Hle.
@@ -551,7 +551,8 @@ Proof.
     split; [constructor; [|exact Hnd]; intros H; apply (Hdis v H); rewrite in_app_iff; simpl; tauto|].
     split.
     + intros x [<-|Hx]; [exact Hn|]. intros H. apply (Hdis x Hx). rewrite in_app_iff. tauto.
-    + intros x [<-|Hx]; [lia|]. apply Hb in Hx. lia.
+    + split; [intros x [<-|Hx]; [lia|]; apply Hb in Hx; lia|].
+      intros _. destruct v as [|v']; [right; left; reflexivity | left; apply Hbelow; lia].
 Qed.
 
 (* pairs delivered into the handles' own IDs *)
@@ -576,37 +577,90 @@ Proof.
   intros v l H. unfold remove_id. simpl. rewrite Nat.eqb_refl. simpl. apply remove_id_notin. exact H.
 Qed.
 
-(* an EPR block that consumes every pair leaves the unit module as it was *)
-Lemma ctx_loop_ok : forall vs c, (forall v, In v vs -> ~ In v (alloc c) /\ v < cap c) -> ok c (ctx_loop vs) c.
+(* Bell-state corrections address an allocated qubit *)
+Lemma corr_use_raw : forall c b v, In v (alloc c) -> v < cap c -> ok c (corr_use b v) c.
 Proof.
-  induction vs as [|v r IH]; intros c H; [apply ok_nil|].
-  unfold ctx_loop. simpl. fold (ctx_loop r).
+  intros c b v Hin Hv. destruct b; simpl; [|apply ok_nil].
+  apply ok_one. apply exec_use_ok. simpl. intros x [<-|[]]. split; assumption.
+Qed.
+
+Lemma corr_use_ok : forall k a c b v, G0 k a c -> In v (map snd a) -> ok c (corr_use b v) c.
+Proof.
+  intros k a c b v HG Hin. destruct b; simpl; [|apply ok_nil].
+  apply ok_one. eapply G0_use; [exact HG|]. intros x [<-|[]]. exact Hin.
+Qed.
+
+Lemma corr_list_ok : forall k a c vs cs, G0 k a c -> In 0 (map snd a) -> ok c (corr_list vs cs) c.
+Proof.
+  intros k a c vs. induction vs as [|v r IH]; intros cs HG H0; simpl; [apply ok_nil|].
+  eapply ok_app; [eapply corr_use_ok; eassumption | apply IH; assumption].
+Qed.
+
+(* an EPR block that consumes every pair leaves the unit module as it was *)
+Lemma pair_loop_consume_ok : forall vs cs c u, (forall v, In v vs -> ~ In v (alloc c) /\ v < cap c) ->
+  ok c (pair_loop vs cs (BConsume u)) c.
+Proof.
+  induction vs as [|v r IH]; intros cs c u H; [apply ok_nil|].
+  simpl pair_loop.
   destruct (H v (or_introl eq_refl)) as [Hn Hv].
   destruct (exec_alloc_ok c v Hv Hn) as [_ Ee].
+  set (c1 := mkCtrl (v :: alloc c) (cap c)) in *.
+  assert (Hin1 : In v (alloc c1)) by (left; reflexivity).
+  assert (Hv1 : v < cap c1) by exact Hv.
   eapply ok_cons; [exact Ee|].
-  eapply ok_cons; [apply exec_use_ok; simpl; intros x [<-|[]]; split; [left; reflexivity | exact Hv]|].
-  eapply ok_cons.
-  - apply (exec_free_ok (mkCtrl (v :: alloc c) (cap c)) v); simpl; [exact Hv | left; reflexivity].
-  - simpl. rewrite remove_id_head by exact Hn. destruct c as [al cp]. simpl. apply IH.
-    intros x Hx. apply H. right. exact Hx.
+  eapply ok_app; [apply corr_use_raw; assumption|].
+  assert (Hfree : exec_event c1 (EFree v) = inl c).
+  { rewrite (exec_free_ok c1 v Hv1 Hin1). unfold c1. simpl. rewrite remove_id_head by exact Hn.
+    destruct c as [al cp]. reflexivity. }
+  assert (Hrest : ok c (pair_loop r (tl cs) (BConsume u)) c).
+  { apply IH. intros x Hx. apply H. right. exact Hx. }
+  destruct u; simpl.
+  - eapply ok_cons; [apply exec_use_ok; simpl; intros x [<-|[]]; split; assumption|].
+    eapply ok_cons; [exact Hfree | exact Hrest].
+  - eapply ok_cons; [exact Hfree | exact Hrest].
+Qed.
+
+(* a block that keeps its qubit: every pair stays allocated in its own ID *)
+Lemma pair_loop_keep_ok : forall k new cs a c, G0 k a c -> NoDup (map snd new) ->
+  (forall v, In v (map snd new) -> ~ In v (map snd a)) -> (forall v, In v (map snd new) -> v < max_q k) ->
+  exists c', ok c (pair_loop (map snd new) cs BKeep) c' /\ G0 k (a ++ new) c'.
+Proof.
+  intros k new. induction new as [|[h v] r IH]; intros cs a c HG Hnd Hdis Hlt; simpl in *.
+  - exists c. rewrite app_nil_r. split; [apply ok_nil | exact HG].
+  - inversion Hnd as [|? ? Hv Hnd']; subst.
+    destruct (G0_alloc k a c h v HG (Hdis v (or_introl eq_refl)) (Hlt v (or_introl eq_refl))) as [c1 [_ [E1 HG1]]].
+    assert (Hin1 : In v (map snd (a ++ [(h, v)]))) by (rewrite map_app, in_app_iff; simpl; tauto).
+    destruct (IH (tl cs) (a ++ [(h, v)]) c1 HG1 Hnd') as [c2 [O2 HG2]].
+    + intros x Hx. rewrite map_app, in_app_iff. simpl. intros [H|[H|[]]].
+      * apply (Hdis x (or_intror Hx)). exact H.
+      * subst. contradiction.
+    + intros x Hx. apply Hlt. right. exact Hx.
+    + exists c2. split; [|rewrite <- app_assoc in HG2; exact HG2].
+      eapply ok_cons; [exact E1|].
+      eapply ok_app; [eapply corr_use_ok; eassumption|].
+      eapply ok_cons; [eapply G0_use; [exact HG1|]; intros x [<-|[]]; exact Hin1 | exact O2].
 Qed.
 
 (* NV: pairs arrive in ID 0 and are moved to their memory qubits *)
-Lemma move_loop_ok : forall k a vs c, G1 k 0 a c -> vs <> [] -> (forall v, In v vs -> In v (map snd a)) ->
-  exists c', ok c (move_loop vs) c' /\ G0 k a c'.
+Lemma move_loop_ok : forall k a vs cs c, G1 k 0 a c -> vs <> [] -> (forall v, In v vs -> In v (map snd a)) ->
+  exists c', ok c (move_loop vs cs) c' /\ G0 k a c'.
 Proof.
-  intros k a vs. induction vs as [|v r IH]; intros c HG Hne Hin; [congruence|].
+  intros k a vs. induction vs as [|v r IH]; intros cs c HG Hne Hin; [congruence|].
+  destruct (G1_commit _ _ _ _ HG) as [c1 [_ [E1 [_ HG0]]]].
+  pose proof (corr_use_ok k a c1 (hd false cs) 0 HG0 (g1_in _ _ _ _ HG)) as Oc.
   destruct r as [|w r].
-  - simpl. destruct (G1_commit _ _ _ _ HG) as [c' [_ [E [_ HG0]]]]. exists c'. split; [apply ok_one; exact E | exact HG0].
-  - change (move_loop (v :: w :: r)) with ([EEpr 0; EUse [0; v]; EFree 0] ++ move_loop (w :: r)).
-    destruct (G1_commit _ _ _ _ HG) as [c1 [_ [E1 [_ HG0]]]].
+  - exists c1. split; [|exact HG0]. simpl. eapply ok_cons; [exact E1 | exact Oc].
+  - change (move_loop (v :: w :: r) cs) with
+      ([EEpr 0] ++ corr_use (hd false cs) 0 ++ [EUse [0; v]; EFree 0] ++ move_loop (w :: r) (tl cs)).
     assert (E2 : exec_event c1 (EUse [0; v]) = inl c1).
     { eapply G0_use; [exact HG0|]. simpl. intros x [<-|[<-|[]]]; [apply (g1_in _ _ _ _ HG) | apply Hin; left; reflexivity]. }
     destruct (G0_free0 k a c1 0 HG0 (g1_in _ _ _ _ HG)) as [c2 [E3 HG1]].
-    destruct (IH c2 HG1) as [c3 [O3 HG3]]; [congruence | intros x Hx; apply Hin; right; exact Hx|].
+    destruct (IH (tl cs) c2 HG1) as [c3 [O3 HG3]]; [congruence | intros x Hx; apply Hin; right; exact Hx|].
     exists c3. split; [|exact HG3].
+    eapply ok_app; [apply ok_one; exact E1|].
+    eapply ok_app; [exact Oc|].
     eapply ok_app; [|exact O3].
-    eapply ok_cons; [exact E1|]. eapply ok_cons; [exact E2|]. apply ok_one. exact E3.
+    eapply ok_cons; [exact E2|]. apply ok_one. exact E3.
 Qed.
 
 Lemma emit_active : forall s evs, active (emit s evs) = active s /\ next_h (emit s evs) = next_h s /\
@@ -805,21 +859,22 @@ Lemma generic_handles : forall k s c n, Good k s c -> nv k = false -> 1 <= n -> 
   exists c1 s1 vs new, Ext s c (commit s) c1 /\ G0 k (active s) c1 /\
     ent_handles k s n = inl (s1, vs) /\ active s1 = active s ++ new /\ map snd new = vs /\ length new = n /\
     pending s1 = pending (commit s) /\ last_new s1 = None /\ H0 s1 /\ NoDup vs /\
-    (forall v, In v vs -> ~ In v (ids s)) /\ (forall v, In v vs -> v < length (active s) + n).
+    (forall v, In v vs -> ~ In v (ids s)) /\ (forall v, In v vs -> v < length (active s) + n) /\
+    (In 0 (ids s) \/ In 0 vs).
 Proof.
   intros k s c n [HH [HR Hlen]] Hnv Hn Hb.
   destruct (commit_G0 _ _ _ HR) as [c1 [HE HG]].
-  destruct (fresh_handles_spec n (commit s)) as [s1 [vs [new [E [Ha [Hv [Hl [_ [Hp [Hln [HH1 [Hnd [Hdis Hbd]]]]]]]]]]]]].
+  destruct (fresh_handles_spec n (commit s)) as [s1 [vs [new [E [Ha [Hv [Hl [_ [Hp [Hln [HH1 [Hnd [Hdis [Hbd Hz]]]]]]]]]]]]]].
   exists c1, s1, vs, new. unfold ent_handles. rewrite Hnv.
   split; [exact HE|]. split; [exact HG|]. split; [exact E|]. split; [exact Ha|]. split; [exact Hv|].
   split; [exact Hl|]. split; [exact Hp|]. split; [exact Hln|]. split; [apply HH1; exact HH|].
-  split; [exact Hnd|]. split; [exact Hdis | exact Hbd].
+  split; [exact Hnd|]. split; [exact Hdis|]. split; [exact Hbd | exact (Hz Hn)].
 Qed.
 
-Lemma step_keep : forall k s c n r, Good k s c -> 1 <= n -> length (active s) + n <= budget k ->
-  StepOK k s c (EprKeep n r).
+Lemma step_keep : forall k s c n r np, Good k s c -> 1 <= n -> length (active s) + n <= budget k ->
+  StepOK k s c (EprKeep n r np).
 Proof.
-  intros k s c n r HGood Hn Hb. pose proof (budget_le k) as Hbl. unfold StepOK. simpl.
+  intros k s c n r np HGood Hn Hb. set (cs := if r then np else []). pose proof (budget_le k) as Hbl. unfold StepOK. simpl.
   destruct (n =? 0) eqn:En0; [apply Nat.eqb_eq in En0; lia|].
   destruct (max_q k <? n) eqn:Enq; [apply Nat.ltb_lt in Enq; lia|].
   destruct (nv k) eqn:Hnv.
@@ -832,10 +887,10 @@ Proof.
     destruct (nv_handles (commit s1) n) as [[s2 vs]|e] eqn:E2.
     + split; [intros e He; discriminate|]. intros s' He. inversion He; subst. clear He.
       destruct (Hok s2 vs eq_refl) as [c3 [HE3 [HG3 [HH3 [HL3 [Hne [Hin [[new [Hnew [Hlen _]]] _]]]]]]]].
-      destruct (move_loop_ok k (active s2) vs c3 HG3 Hne Hin) as [c4 [O4 HG4]].
+      destruct (move_loop_ok k (active s2) vs cs c3 HG3 Hne Hin) as [c4 [O4 HG4]].
       exists c4. split.
       * eapply Ext_trans; [exact HE1|]. eapply Ext_trans; [exact HE2|]. eapply Ext_trans; [exact HE3|].
-        exists (move_loop vs). split; [apply emit_None; exact HL3 | exact O4].
+        exists (move_loop vs cs). split; [apply emit_None; exact HL3 | exact O4].
       * split; [exact HH3|]. split; [exact HG4|]. simpl. rewrite Hnew, app_length, Hlen. simpl.
         assert (Hl : length (active s1) = length (active s)).
         { rewrite <- (map_length fst (active s1)), <- (map_length fst (active s)). f_equal. exact Hh1. }
@@ -843,22 +898,27 @@ Proof.
     + split; [|intros s' He; discriminate]. intros e0 He. inversion He; subst. apply Hrej. reflexivity.
   - (* generic *)
     destruct (generic_handles k s c n HGood Hnv Hn Hb)
-      as [c1 [s1 [vs [new [HE [HG [E [Ha [Hv [Hl [Hp [Hln [HH1 [Hnd [Hdis Hbd]]]]]]]]]]]]]]].
-    rewrite E. split; [intros e He; discriminate|]. intros s' He. inversion He; subst. clear He.
-    assert (Hevs : (if single_comm k then move_loop (map snd new) else map EEpr (map snd new)) = map EEpr (map snd new)).
+      as [c1 [s1 [vs [new [HE [HG [E [Ha [Hv [Hl [Hp [Hln [HH1 [Hnd [Hdis [Hbd Hz]]]]]]]]]]]]]]]].
+    rewrite E. split; [intros e He; discriminate|]. intros s' He. inversion He; subst s'. clear He.
+    fold cs. subst vs.
+    assert (Hevs : (if single_comm k then move_loop (map snd new) cs else map EEpr (map snd new) ++ corr_list (map snd new) cs)
+                   = map EEpr (map snd new) ++ corr_list (map snd new) cs).
     { unfold single_comm. rewrite Hnv. simpl. destruct (max_q k =? 1) eqn:E1; [|reflexivity].
       apply Nat.eqb_eq in E1. unfold budget in Hb. rewrite Hnv in Hb.
       destruct new as [|[h v] [|p new']]; simpl in *; try lia.
-      assert (v < length (active s) + 1) by (apply Hbd; left; reflexivity).
-      replace v with 0 by lia. reflexivity. }
+      assert (v < length (active s) + n) by (apply Hbd; left; reflexivity).
+      replace v with 0 by lia. rewrite app_nil_r. reflexivity. }
     rewrite Hevs.
     destruct (G0_epr_list k new (active s) c1 HG) as [c2 [O2 HG2]].
     + exact Hnd.
     + exact Hdis.
     + intros v Hv. apply Hbd in Hv. lia.
-    + exists c2. split.
-      * eapply Ext_trans; [exact HE|]. exists (map EEpr (map snd new)). split; [|exact O2].
-        rewrite emit_None by exact Hln. rewrite Hp. reflexivity.
+    + assert (H0in : In 0 (map snd (active s ++ new))).
+      { rewrite map_app, in_app_iff. exact Hz. }
+      exists c2. split.
+      * eapply Ext_trans; [exact HE|]. exists (map EEpr (map snd new) ++ corr_list (map snd new) cs). split.
+        -- rewrite emit_None by exact Hln. rewrite Hp. reflexivity.
+        -- eapply ok_app; [exact O2 | eapply corr_list_ok; eassumption].
       * split; [exact HH1|]. split; [unfold Rel; simpl; rewrite Ha; exact HG2|].
         simpl. rewrite Ha, app_length. lia.
 Qed.
@@ -876,91 +936,142 @@ Proof.
     rewrite <- app_assoc. simpl. split; [reflexivity|]. split; [lia|]. split; [lia|]. split; reflexivity.
 Qed.
 
-Lemma seq_run_ok : forall k s c n zero, Good k s c -> 1 <= n -> length (active s) + 1 <= budget k ->
-  (zero = true -> single_comm k = true) ->
-  exists s' c', seq_run k s n zero = inl s' /\ Ext s c s' c' /\ G0 k (active s') c' /\ last_new s' = None /\
-    handles s' = handles s /\ next_h s' = next_h s + n.
+Lemma handles_length : forall s, length (handles s) = length (active s).
+Proof. intros. unfold handles. apply map_length. Qed.
+
+(* n pairs through the one ID v, from a committed state whose active IDs do not contain v *)
+Lemma seq_core : forall k s0 c0 v n cs b, last_new s0 = None -> G0 k (active s0) c0 ->
+  ~ In v (ids s0) -> v < max_q k -> (keeps b = true -> n = 1) ->
+  let evs := pair_loop (repeat v n) cs b in
+  let s2 := emit (add_handles s0 v n) evs in
+  let a' := if keeps b then active s2 else drop_last_handles n (active s2) in
+  exists c', ok c0 evs c' /\ pending s2 = pending s0 ++ evs /\ G0 k a' c' /\
+    map fst a' = handles s0 ++ (if keeps b then [next_h s0] else []) /\
+    next_h s2 = next_h s0 + n /\ last_new s2 = None.
 Proof.
-  intros k s c n zero HGood Hn Hb Hz. pose proof (budget_le k) as Hbl.
+  intros k s0 c0 v n cs b HL HG Hv Hlt Hk. cbv zeta.
+  destruct (add_handles_spec n s0 v) as [new [Ha [Hl [Hnh [Hp Hln]]]]].
+  assert (Hpend : pending (emit (add_handles s0 v n) (pair_loop (repeat v n) cs b))
+                  = pending s0 ++ pair_loop (repeat v n) cs b).
+  { rewrite emit_None by (rewrite Hln; exact HL). rewrite Hp. reflexivity. }
+  destruct b as [u|]; simpl keeps; cbv iota.
+  - exists c0. split.
+    + apply pair_loop_consume_ok. intros x Hx. apply repeat_spec in Hx. subst x.
+      destruct HG as [Hcap _ _ Hs _]. split; [intros H; apply Hv; apply Hs; exact H | rewrite Hcap; exact Hlt].
+    + split; [exact Hpend|]. simpl. rewrite Ha, (drop_last_app _ _ _ Hl).
+      split; [exact HG|]. split; [rewrite app_nil_r; reflexivity|]. split; [exact Hnh | reflexivity].
+  - specialize (Hk eq_refl). subst n. simpl in *.
+    destruct (pair_loop_keep_ok k [(next_h s0, v)] cs (active s0) c0 HG) as [c' [O HG']].
+    + simpl. constructor; [intros [] | constructor].
+    + simpl. intros x [<-|[]]. exact Hv.
+    + simpl. intros x [<-|[]]. exact Hlt.
+    + exists c'. split; [exact O|]. split; [exact Hpend|]. split; [exact HG'|].
+      split; [rewrite map_app; reflexivity|]. split; [lia | reflexivity].
+Qed.
+
+Lemma seq_run_ok : forall k s c n zero cs b, Good k s c -> 1 <= n -> length (active s) + 1 <= budget k ->
+  (zero = true -> single_comm k = true) -> (keeps b = true -> n = 1) ->
+  exists s' c', seq_run k s n zero cs b = inl s' /\ Ext s c s' c' /\ G0 k (active s') c' /\ last_new s' = None /\
+    handles s' = handles s ++ (if keeps b then [next_h s] else []) /\ next_h s' = next_h s + n.
+Proof.
+  intros k s c n zero cs b HGood Hn Hb Hz Hk. pose proof (budget_le k) as Hbl.
   unfold seq_run, seq_handles. destruct (nv k) eqn:Hnv.
   - destruct (free_up0_ok k s c HGood (Good_room _ _ _ HGood Hnv)) as [s1 [c1 [E1 [HE1 [HG1 [H01 [Hh1 [Hn1 _]]]]]]]].
     rewrite E1. destruct HG1 as [HH1 [HR1 Hlen1]].
     destruct (commit_G0 _ _ _ HR1) as [c2 [HE2 HG2]].
-    destruct (add_handles_spec n (commit s1) 0) as [new [Ha [Hl [Hnh [Hp Hln]]]]].
     assert (Hu : (if zero then 0 else 0) = 0) by (destruct zero; reflexivity). rewrite Hu.
-    eexists. exists c2. split; [reflexivity|]. split.
-    + eapply Ext_trans; [exact HE1|]. eapply Ext_trans; [exact HE2|].
-      exists (ctx_loop (repeat 0 n)). split.
-      * simpl. unfold all_pending at 1. rewrite Hln, Hp. simpl. rewrite app_nil_r. reflexivity.
-      * apply ctx_loop_ok. intros v Hv. apply repeat_spec in Hv. subst v. destruct HG2 as [Hcap _ _ Hs _]. split.
-        -- intros H. apply H01. apply Hs. exact H.
-        -- rewrite Hcap. rewrite (budget_nv k Hnv) in Hb. lia.
-    + simpl. rewrite Ha. simpl. rewrite (drop_last_app _ _ _ Hl).
-      split; [exact HG2|]. split; [reflexivity|]. split; [exact Hh1|]. rewrite Hnh. simpl. lia.
+    assert (Hlt : 0 < max_q k) by (rewrite (budget_nv k Hnv) in Hb; lia).
+    destruct (seq_core k (commit s1) c2 0 n cs b eq_refl HG2 H01 Hlt Hk) as [c' [O [Hp [HG' [Hh [Hnh HL]]]]]].
+    eexists. exists c'. split; [reflexivity|]. split.
+    + eapply Ext_trans; [exact HE1|]. eapply Ext_trans; [exact HE2|]. eexists. split; [exact Hp | exact O].
+    + cbn [active last_new next_h]. split; [exact HG'|]. split; [exact HL|]. split; [|cbn [next_h commit] in Hnh; lia].
+      unfold handles at 1. cbn [active]. rewrite Hh. change (handles (commit s1)) with (handles s1).
+      change (next_h (commit s1)) with (next_h s1). rewrite Hh1, Hn1. reflexivity.
   - destruct HGood as [HH [HR Hlen]].
     destruct (new_id_spec (ids s)) as [v [Ev [Hv [_ Hle]]]]. rewrite Ev.
     destruct (commit_G0 _ _ _ HR) as [c1 [HE HG]].
-    destruct (add_handles_spec n (commit s) v) as [new [Ha [Hl [Hnh [Hp Hln]]]]].
     unfold ids in Hle. rewrite map_length in Hle.
     assert (Hu : (if zero then 0 else v) = v).
     { destruct zero; [|reflexivity]. specialize (Hz eq_refl). unfold single_comm in Hz. rewrite Hnv in Hz. simpl in Hz.
       apply Nat.eqb_eq in Hz. unfold budget in Hb. rewrite Hnv in Hb. lia. }
     rewrite Hu.
-    eexists. exists c1. split; [reflexivity|]. split.
-    + eapply Ext_trans; [exact HE|]. exists (ctx_loop (repeat v n)). split.
-      * simpl. unfold all_pending at 1. rewrite Hln, Hp. simpl. rewrite app_nil_r. reflexivity.
-      * apply ctx_loop_ok. intros x Hx. apply repeat_spec in Hx. subst x. destruct HG as [Hcap _ _ Hs _]. split.
-        -- intros H. apply Hv. apply Hs. exact H.
-        -- rewrite Hcap. lia.
-    + simpl. rewrite Ha. simpl. rewrite (drop_last_app _ _ _ Hl).
-      split; [exact HG|]. split; [reflexivity|]. split; [reflexivity|]. rewrite Hnh. simpl. lia.
+    assert (Hlt : v < max_q k) by lia.
+    destruct (seq_core k (commit s) c1 v n cs b eq_refl HG Hv Hlt Hk) as [c' [O [Hp [HG' [Hh [Hnh HL]]]]]].
+    eexists. exists c'. split; [reflexivity|]. split.
+    + eapply Ext_trans; [exact HE|]. eexists. split; [exact Hp | exact O].
+    + cbn [active last_new next_h]. split; [exact HG'|]. split; [exact HL|]. split; [|cbn [next_h commit] in Hnh; lia].
+      unfold handles at 1. cbn [active]. rewrite Hh. reflexivity.
 Qed.
 
-Lemma step_seq : forall k s c n r, Good k s c -> 1 <= n -> length (active s) + 1 <= budget k ->
-  StepOK k s c (EprKeepSeq n r).
+(* handles of a state produced by seq_run still form a valid handle table *)
+Lemma seq_H0 : forall s hs nh n (kp : bool), H0 s -> 1 <= n ->
+  hs = handles s ++ (if kp then [next_h s] else []) -> next_h s + (if kp then 1 else 0) <= nh ->
+  NoDup hs /\ forall h, In h hs -> h < nh.
 Proof.
-  intros k s c n r HGood Hn Hb. unfold StepOK. simpl.
+  intros s hs nh n kp [A B] Hn -> Hnh. destruct kp.
+  - split; [apply NoDup_snoc; [exact A | intros H; apply B in H; lia]|].
+    intros h. rewrite in_app_iff. simpl. intros [H|[H|[]]]; [apply B in H; lia | lia].
+  - rewrite app_nil_r. split; [exact A|]. intros h H. apply B in H. lia.
+Qed.
+
+Lemma step_seq : forall k s c n r np b, Good k s c -> 1 <= n -> length (active s) + 1 <= budget k ->
+  (keeps b = true -> n = 1) -> StepOK k s c (EprKeepSeq n r np b).
+Proof.
+  intros k s c n r np b HGood Hn Hb Hk. unfold StepOK. simpl.
   destruct (n =? 0) eqn:En0; [apply Nat.eqb_eq in En0; lia|].
-  destruct (seq_run_ok k s c n (single_comm k) HGood Hn Hb (fun H => H)) as [s1 [c1 [E [HE [HG [HL [Hh Hnh]]]]]]].
+  destruct (seq_run_ok k s c n (single_comm k) (if r then np else []) b HGood Hn Hb (fun H => H) Hk)
+    as [s1 [c1 [E [HE [HG [HL [Hh Hnh]]]]]]].
   rewrite E. split; [intros e He; discriminate|]. intros s' He. inversion He; subst s'. clear He.
-  exists c1. split; [exact HE|]. destruct HGood as [[A B] [_ Hlen]]. split; [|split].
-  - unfold H0. rewrite Hh, Hnh. split; [exact A|]. intros h Hh'. apply B in Hh'. lia.
+  exists c1. split; [exact HE|]. destruct HGood as [HH [_ Hlen]]. split; [|split].
+  - unfold H0. rewrite Hnh. apply (seq_H0 s (handles s1) (next_h s + n) n (keeps b) HH Hn Hh).
+    destruct (keeps b); lia.
   - unfold Rel. rewrite HL. exact HG.
-  - rewrite <- (map_length fst (active s1)). fold (handles s1). rewrite Hh. unfold handles. rewrite map_length. exact Hlen.
+  - rewrite <- handles_length, Hh, app_length, handles_length. destruct (keeps b); simpl; lia.
 Qed.
 
-Lemma step_ctx : forall k s c n r, Good k s c -> 1 <= n -> length (active s) + n <= budget k ->
-  StepOK k s c (EprContext n r).
+Lemma step_ctx : forall k s c n r b, Good k s c -> 1 <= n -> length (active s) + n <= budget k ->
+  (keeps b = true -> single_comm k = true -> n = 1) -> StepOK k s c (EprContext n r b).
 Proof.
-  intros k s c n r HGood Hn Hb. pose proof (budget_le k) as Hbl. unfold StepOK. simpl.
+  intros k s c n r b HGood Hn Hb Hk. pose proof (budget_le k) as Hbl. unfold StepOK. simpl.
   destruct (n =? 0) eqn:En0; [apply Nat.eqb_eq in En0; lia|].
   destruct (max_q k <? n) eqn:Enq; [apply Nat.ltb_lt in Enq; lia|].
   destruct (single_comm k) eqn:Hsc.
   - (* one communication qubit: all pairs through one ID *)
     assert (Hb1 : length (active s) + 1 <= budget k) by lia.
-    destruct (seq_run_ok k s c n false HGood Hn Hb1) as [s1 [c1 [E [HE [HG [HL [Hh Hnh]]]]]]]; [discriminate|].
+    destruct (seq_run_ok k s c n false [] b HGood Hn Hb1) as [s1 [c1 [E [HE [HG [HL [Hh Hnh]]]]]]];
+      [discriminate | intros H; apply Hk; [exact H | reflexivity] |].
     rewrite E. split; [intros e He; discriminate|]. intros s' He. inversion He; subst s'. clear He.
     exists c1. split; [destruct HE as [evs [Hp Ho]]; exists evs; split; [exact Hp | exact Ho]|].
-    destruct HGood as [[A B] [_ Hlen]]. split; [|split].
-    + unfold H0, handles in *. simpl. rewrite Hh. split; assumption.
+    destruct HGood as [HH [_ Hlen]]. split; [|split].
+    + unfold H0. simpl. change (map fst (active s1)) with (handles s1).
+      apply (seq_H0 s (handles s1) _ n (keeps b) HH Hn Hh). destruct (keeps b); lia.
     + unfold Rel. simpl. rewrite HL. exact HG.
-    + simpl. rewrite <- (map_length fst (active s1)). fold (handles s1). rewrite Hh. unfold handles.
-      rewrite map_length. exact Hlen.
+    + simpl. rewrite <- handles_length, Hh, app_length, handles_length.
+      destruct (keeps b); simpl; lia.
   - assert (Hnv : nv k = false).
     { unfold single_comm in Hsc. apply orb_false_iff in Hsc. tauto. }
     destruct (generic_handles k s c n HGood Hnv Hn Hb)
-      as [c1 [s1 [vs [new [HE [HG [E [Ha [Hv [Hl [Hp [Hln [HH1 [Hnd [Hdis Hbd]]]]]]]]]]]]]]].
-    rewrite E. split; [intros e He; discriminate|]. intros s' He. inversion He; subst. clear He.
-    exists c1. split.
-    + eapply Ext_trans; [exact HE|]. exists (ctx_loop (map snd new)). split.
-      * simpl. unfold all_pending at 1. rewrite Hln. simpl. rewrite app_nil_r, Hp. reflexivity.
-      * apply ctx_loop_ok. intros v Hv. destruct HG as [Hcap _ _ Hs _]. split.
-        -- intros H. apply (Hdis v Hv). apply Hs. exact H.
-        -- rewrite Hcap. apply Hbd in Hv. lia.
-    + destruct HGood as [HH [_ Hlen]]. split; [|split].
-      * unfold H0, handles. simpl. rewrite Ha, (drop_last_app _ _ _ eq_refl). exact HH.
-      * unfold Rel. simpl. rewrite Ha, (drop_last_app _ _ _ eq_refl). exact HG.
-      * simpl. rewrite Ha, (drop_last_app _ _ _ eq_refl). exact Hlen.
+      as [c1 [s1 [vs [new [HE [HG [E [Ha [Hv [Hl [Hp [Hln [HH1 [Hnd [Hdis [Hbd _]]]]]]]]]]]]]]]].
+    rewrite E. split; [intros e He; discriminate|]. intros s' He.
+    assert (Hpend : pending (emit s1 (pair_loop vs [] b)) = pending (commit s) ++ pair_loop vs [] b).
+    { rewrite emit_None by exact Hln. rewrite Hp. reflexivity. }
+    destruct HGood as [HH [_ Hlen]].
+    destruct b as [u|]; simpl keeps in He; cbv iota in He; inversion He; subst s'; clear He.
+    + exists c1. split.
+      * eapply Ext_trans; [exact HE|]. exists (pair_loop vs [] (BConsume u)). split; [exact Hpend|].
+        apply pair_loop_consume_ok. intros v Hvin. destruct HG as [Hcap _ _ Hs _]. split.
+        -- intros H. apply (Hdis v Hvin). apply Hs. exact H.
+        -- rewrite Hcap. apply Hbd in Hvin. lia.
+      * split; [|split].
+        -- unfold H0, handles. simpl. rewrite Ha, (drop_last_app _ _ _ Hl). exact HH.
+        -- unfold Rel. simpl. rewrite Ha, (drop_last_app _ _ _ Hl). exact HG.
+        -- simpl. rewrite Ha, (drop_last_app _ _ _ Hl). exact Hlen.
+    + subst vs. destruct (pair_loop_keep_ok k new [] (active s) c1 HG Hnd Hdis) as [c2 [O2 HG2]].
+      * intros v Hvin. apply Hbd in Hvin. lia.
+      * exists c2. split.
+        -- eapply Ext_trans; [exact HE|]. exists (pair_loop (map snd new) [] BKeep). split; [exact Hpend | exact O2].
+        -- split; [exact HH1|]. split; [unfold Rel; simpl; rewrite Ha; exact HG2|].
+           simpl. rewrite Ha, app_length. lia.
 Qed.
 
 (* ------------------------------------------------------------------ any program *)
@@ -977,8 +1088,12 @@ Proof.
   - apply step_md; assumption.
   - apply step_free; assumption.
   - apply andb_true_iff in Hb. destruct Hb as [H1 H2]. apply Nat.leb_le in H1, H2. apply step_keep; assumption.
-  - apply andb_true_iff in Hb. destruct Hb as [H1 H2]. apply Nat.leb_le in H1, H2. apply step_ctx; assumption.
-  - apply andb_true_iff in Hb. destruct Hb as [H1 H2]. apply Nat.leb_le in H1, H2. apply step_seq; assumption.
+  - apply andb_true_iff in Hb. destruct Hb as [Hb H3]. apply andb_true_iff in Hb. destruct Hb as [H1 H2].
+    apply Nat.leb_le in H1, H2. apply step_ctx; try assumption.
+    intros Hkp Hsc. rewrite Hkp, Hsc in H3. simpl in H3. apply Nat.eqb_eq. exact H3.
+  - apply andb_true_iff in Hb. destruct Hb as [Hb H3]. apply andb_true_iff in Hb. destruct Hb as [H1 H2].
+    apply Nat.leb_le in H1, H2. apply step_seq; try assumption.
+    intros Hkp. rewrite Hkp in H3. simpl in H3. apply Nat.eqb_eq. exact H3.
   - congruence.
 Qed.
 
